@@ -257,15 +257,20 @@ def oracle(c, r):
             yield from check_series_obj("between", bt)
             if bt["x"] and (bt["x"][0] != x0 or bt["x"][-1] != x1):
                 yield ("between-ends", "between(%r, %r) spans [%r, %r]" % (x0, x1, bt["x"][0], bt["x"][-1]))
-            if strict and valid(bt["x"]) and len(bt["x"]) == len(bt["y"]):
-                for t in [x0, x1, (x0 + x1) / 2, x0 + 0.3 * (x1 - x0)] + [x for x in xs if x0 <= x <= x1]:
+            if valid(bt["x"]) and len(bt["x"]) == len(bt["y"]):
+                # with repeated abscissae (jumps) the slice is compared away from the jumps, where the graph is single valued
+                probes = [x0, x1, (x0 + x1) / 2, x0 + 0.3 * (x1 - x0)] + [x for x in xs if x0 <= x <= x1]
+                if not strict:
+                    jumps = set(x for i, x in enumerate(xs) if i + 1 < len(xs) and xs[i + 1] == x)
+                    probes = [t for t in probes if t not in jumps]
+                for t in probes:
                     a, b = interp(bt["x"], bt["y"], t), interp(xs, ys, t)
                     if a is None or b is None or not any(C.close(u, w, 1e-8) for u in a for w in b):
                         yield ("between-agrees", "slice [%r, %r] evaluates to %r at %r, parent %r" % (x0, x1, a, t, b))
                         break
     # split areas add up
     sa, ar = pj(r["split_areas"]), pj(r["area"])
-    if strict and sa is not None and ar is not None and xs[0] <= x0 <= xs[-1] and len(xs) >= 2:
+    if sa is not None and ar is not None and xs[0] <= x0 <= xs[-1] and len(xs) >= 2:
         tot = (sa["a"] or 0.0) + (sa["b"] or 0.0)
         if not C.close(tot, ar, 1e-8):
             yield ("split-area", "areas of the pieces split at %r add to %r, the whole is %r (xs=%r ys=%r)" % (x0, tot, ar, xs, ys))
